@@ -62,7 +62,8 @@ type pfCfg struct {
 	G           int64             `json:"G"`
 	DefaultSlug string            `json:"defaultSlug"`
 	Signer      bool              `json:"signer"` // REQUESTSIGNER_KEY configured
-	Hmac        bool              `json:"hmac"`   // <service>_signing_key configured for every upstream
+	AuthURL     string            `json:"authURL,omitempty"`
+	Hmac        bool              `json:"hmac"` // <service>_signing_key configured for every upstream
 	Inject      map[string]string `json:"inject"`
 }
 
@@ -320,6 +321,9 @@ func newPfWorld(cfg pfCfg) (*pfWorld, error) {
 	c := proxy.DefaultProxyConfig()
 	c.ClientConfig = proxy.ClientConfig{ID: "proxy-client-id", Secret: pfClientSecret}
 	c.ProviderConfig.ProviderURLConfig.External = w.auth.URL
+	if cfg.AuthURL != "" {
+		c.ProviderConfig.ProviderURLConfig.External = cfg.AuthURL // the system engine: a real sso-auth instead of the scripted fake
+	}
 	c.SessionConfig.CookieConfig.Secret = pfSecretB64
 	c.SessionConfig.CookieConfig.Secure = cfg.Secure
 	c.SessionConfig.CookieConfig.HTTPOnly = cfg.HTTPOnly
@@ -517,7 +521,9 @@ func (w *pfWorld) step(st *pfStep) M {
 						if kind == "other-sid" {
 							sp.SessionID = "another-flow-same-url"
 						} else {
-							sp.RedirectURI = sp.RedirectURI + "/elsewhere"
+							// another same-site address (never "//…": the proxy itself only records cleaned request URIs, and this
+							// record is forged with the proxy's own key)
+							sp.RedirectURI = strings.TrimRight(sp.RedirectURI, "/") + "/elsewhere"
 						}
 						v, _ := w.cipher.Marshal(sp)
 						return v, true, info
